@@ -35,6 +35,8 @@ def _scratch(repo, workdir, names):
     shutil.copy(os.path.join(HERE, 'grid', 'qcommon.rs'), os.path.join(dst, 'tests', 'common', 'verif_grid_qcommon.rs'))
     for n in names:
         text = open(os.path.join(HERE, 'grid', n + '.rs')).read().replace('include!("verif_grid_', 'include!("common/verif_grid_')
+        # (the command-line binary of the scratch copy is named after its - unique - package)
+        text = text.replace('VERIF_SCRATCH_PACKAGE', unique)
         with open(os.path.join(dst, 'tests', 'verif_grid_%s.rs' % n), 'w') as f:
             f.write(text)
     return dst, unique
